@@ -31,7 +31,7 @@ def run(ctx):
     # ... and __setstate__ of every kind on empty / small / full containers with a smaller and a larger new state
     for gi, (kind, nkeys, newn) in enumerate((k, n, m) for k in ("Bucket", "Set", "BTree", "TreeSet") for n in (0, 3, 16) for m in (5, 40)):
         grid.append((fams[gi % len(fams)], kind, nkeys, (4, 4), ("setstate", newn)))
-    for it in range(len(grid) + ctx.n(60, 1200)):
+    for it in range(len(grid) + ctx.n(80, 12000)):
         fn = rng.choice(fams)
         kind = rng.choice(["Bucket", "Set", "BTree", "TreeSet", "BTree"])
         nkeys = rng.choice([0, 1, 3, 4, 7, 15, 16, 31, 63, 64])
